@@ -12,6 +12,7 @@ import Driver.C05
 import Driver.C09
 import Driver.C11
 import Driver.C18
+import Driver.C19
 open AITB
 
 def handleLine (line : String) : String :=
@@ -32,6 +33,7 @@ def handleLine (line : String) : String :=
   | "C09" :: rest => DrvC09.handle rest
   | "C11" :: rest => DrvC11.handle rest
   | "C18" :: rest => DrvC18.handle rest
+  | "C19" :: rest => DrvC19.handle rest
   | _ => "bad-op"
 
 partial def loop (h : IO.FS.Stream) (out : IO.FS.Stream) : IO Unit := do
